@@ -211,17 +211,20 @@ pub fn c02(seed: u64, budget: usize) -> Report {
                 _ => { let v = r.range(-0.5, 1.5); px.push([v, v, r.range(-0.5, 1.5)]); }
             }
         }
-        let n = px.len();
-        let rgb = Rgb::new(px.clone(), n, 1, TransferCharacteristic::BT1886, ColorPrimaries::BT709).unwrap();
-        let (codes, okcfg) = if ts == 1 { let y = Yuv::<u8>::try_from((&rgb, cfg)).unwrap(); (codes_of(&y), y.config() == cfg && y.width() == n && y.height() == 1) }
-            else { let y = Yuv::<u16>::try_from((&rgb, cfg)).unwrap(); (codes_of(&y), y.config() == cfg && y.width() == n && y.height() == 1) };
+        // image shape: one row, one column (planes one sample wide, many rows), 97 wide (stride != width), 2 wide
+        let n0 = px.len();
+        let (w, h) = match (ci + seed as usize) % 4 { 1 => (1, n0), 2 => (97, n0 / 97), 3 => (2, n0 / 2), _ => (n0, 1) };
+        let n = w * h; px.truncate(n);
+        let rgb = Rgb::new(px.clone(), w, h, TransferCharacteristic::BT1886, ColorPrimaries::BT709).unwrap();
+        let (codes, okcfg) = if ts == 1 { let y = Yuv::<u8>::try_from((&rgb, cfg)).unwrap(); (codes_of_rows(&y, n), y.config() == cfg && y.width() == w && y.height() == h) }
+            else { let y = Yuv::<u16>::try_from((&rgb, cfg)).unwrap(); (codes_of_rows(&y, n), y.config() == cfg && y.width() == w && y.height() == h) };
         if !okcfg { rep.fail("output config/dimensions differ from the request", format!("{:?}", cfg), "".into(), "".into()); }
         let tol = 0.5 + 1e-6 * (1u64 << bd) as f64;
         rep.evaluated += n as u64;
-        for (p, c) in px.iter().zip(codes.iter()) {
+        for (pi, (p, c)) in px.iter().zip(codes.iter()).enumerate() {
             let e = ref_encode(m, [p[0] as f64, p[1] as f64, p[2] as f64]);
             for k in 0..3 { let ideal = quant(e[k], bd, full, k > 0); let d = (c[k] as f64 - ideal).abs(); rep.note("excess over 0.5 / (1e-6*2^n)", (d - 0.5) / (1e-6 * (1u64 << bd) as f64), 1.0);
-                if !(d <= tol) { rep.fail("code is not nearest to the H.273 quantisation", format!("enc {} {} BT709 {} {} {} {} {}", ts, m, full as u8, bd, hx(p[0]), hx(p[1]), hx(p[2])), format!("{:?}", c), format!("plane {} ideal {}", k, ideal)); } }
+                if !(d <= tol) { rep.fail("code is not nearest to the H.273 quantisation", format!("enc {} {} BT709 {} {} {} {} {}{}", ts, m, full as u8, bd, hx(p[0]), hx(p[1]), hx(p[2]), if h > 1 { format!(" S {} {} {}", w, h, pi) } else { String::new() }), format!("{:?}", c), format!("plane {} ideal {}", k, ideal)); } }
         }
         rep
     }).collect();
